@@ -13,14 +13,14 @@
      QFree   subroutine  `set Q0 v; qfree Q0`
      SetReg  subroutine  `set r x`
      NewArr  subroutine  `set R0 len; array R0 @addr`
-     Store   subroutine  `set R0 x; store R0 @addr[i]`
+     Store   subroutine  `set R0 x; set R1 i; store R0 @addr[R1]`
      RetReg  subroutine  `ret_reg r`
      RetArr  subroutine  `ret_arr @addr`
      Reserve the network stack takes a communication qubit from the executor's
              pool (_get_unused_physical_qubit)                     [environment]
      Keep    a create-and-keep response is delivered for a receive request of one
              pair whose virtual qubit id v sits in array @qa and whose result
-             array is @ra (subroutine: array/store/array/set x4/recv_epr/wait_all,
+             array is @ra (subroutine: set/array/set/set/store/set/array/set x4/recv_epr/set/set/wait_all,
              the response arrives inside the wait)                 [environment] *)
 From Coq Require Import ZArith List Bool Lia.
 Import ListNotations.
@@ -47,6 +47,8 @@ Definition R0 : reg := (0, 0).
 Definition R1 : reg := (0, 1).
 Definition R2 : reg := (0, 2).
 Definition R3 : reg := (0, 3).
+Definition R4 : reg := (0, 4).
+Definition R5 : reg := (0, 5).
 Definition Q0 : reg := (2, 0).
 
 Definition mem2 (x : Z * Z) (l : list (Z * Z)) : bool := existsb (pair_eqb x) l.
@@ -290,9 +292,9 @@ Definition bind (x : appst * option err) (f : appst -> appst * option err) : app
 
 Definition keep_prefix (v qa ra remote sock : Z) (a : appst) : appst * option err :=
   bind (i_array R0 qa (i_set R0 1 a)) (fun a =>
-  bind (i_store R0 qa 0 (i_set R0 v a)) (fun a =>
+  bind (i_store R0 qa 0 (i_set R4 0 (i_set R0 v a))) (fun a =>
   bind (i_array R0 ra (i_set R0 10 a)) (fun a =>
-  (i_set R3 ra (i_set R2 qa (i_set R1 sock (i_set R0 remote a))), None)))).
+  (i_set R5 10 (i_set R4 0 (i_set R3 ra (i_set R2 qa (i_set R1 sock (i_set R0 remote a))))), None)))).
 
 (* _handle_epr_ok_k_response + _store_ent_info for pair 0 of that request *)
 Definition do_keep (s : state) (nd : Z) (k : pid) (a : appst) (qa ra : Z) (p : Z) (info : list Z)
@@ -354,7 +356,8 @@ Definition step (s : state) (o : op) : state * outcome :=
       end
   | SetReg nd app r x => classical s (nd, app) (fun a => (i_set r x a, None))
   | NewArr nd app addr len => classical s (nd, app) (fun a => i_array R0 addr (i_set R0 len a))
-  | Store nd app addr i x => classical s (nd, app) (fun a => i_store R0 addr i (i_set R0 x a))
+  | Store nd app addr i x =>
+      classical s (nd, app) (fun a => i_store R0 addr i (i_set R1 (Z.of_nat i) (i_set R0 x a)))
   | RetReg nd app r => classical s (nd, app) (i_ret_reg r)
   | RetArr nd app addr => classical s (nd, app) (i_ret_arr addr)
   | Reserve nd =>
